@@ -2,9 +2,9 @@ package main
 
 import (
 	"fmt"
-	"math"
 	"go/token"
 	"go/types"
+	"math"
 	"sort"
 	"strings"
 
@@ -91,7 +91,9 @@ func runC03AllLoops(c *Ctx) {
 	for f := range reach {
 		fs = append(fs, f)
 	}
-	sort.Slice(fs, func(i, j int) bool { return FuncName(fs[i]) < FuncName(fs[j]) || (FuncName(fs[i]) == FuncName(fs[j]) && fs[i].Pos() < fs[j].Pos()) })
+	sort.Slice(fs, func(i, j int) bool {
+		return FuncName(fs[i]) < FuncName(fs[j]) || (FuncName(fs[i]) == FuncName(fs[j]) && fs[i].Pos() < fs[j].Pos())
+	})
 	for _, f := range fs {
 		if pkgOf(f) != "geom" || len(f.Blocks) == 0 {
 			continue
@@ -203,7 +205,9 @@ func runC09Exists(c *Ctx) {
 	for f := range reach {
 		fs = append(fs, f)
 	}
-	sort.Slice(fs, func(i, j int) bool { return FuncName(fs[i]) < FuncName(fs[j]) || (FuncName(fs[i]) == FuncName(fs[j]) && fs[i].Pos() < fs[j].Pos()) })
+	sort.Slice(fs, func(i, j int) bool {
+		return FuncName(fs[i]) < FuncName(fs[j]) || (FuncName(fs[i]) == FuncName(fs[j]) && fs[i].Pos() < fs[j].Pos())
+	})
 	n := 0
 	for _, f := range fs {
 		if pkgOf(f) != "geom" || len(f.Blocks) == 0 {
@@ -302,7 +306,7 @@ func runC16Force(c *Ctx) {
 		}
 		return false
 	}
-	is3D := func(t int) bool { return t&1 != 0 }  // DimXY=0, DimXYZ=1, DimXYM=2, DimXYZM=3
+	is3D := func(t int) bool { return t&1 != 0 } // DimXY=0, DimXYZ=1, DimXYM=2, DimXYZM=3
 	isM := func(t int) bool { return t&2 != 0 }
 	// sanity of the encoding assumed above
 	if lookupConst(c, "geom", "DimXYZ") != 1 || lookupConst(c, "geom", "DimXYM") != 2 || lookupConst(c, "geom", "DimXYZM") != 3 {
@@ -507,7 +511,9 @@ func centroidFamily(c *Ctx) []*ssa.Function {
 			out = append(out, f)
 		}
 	}
-	sort.Slice(out, func(i, j int) bool { return FuncName(out[i]) < FuncName(out[j]) || (FuncName(out[i]) == FuncName(out[j]) && out[i].Pos() < out[j].Pos()) })
+	sort.Slice(out, func(i, j int) bool {
+		return FuncName(out[i]) < FuncName(out[j]) || (FuncName(out[i]) == FuncName(out[j]) && out[i].Pos() < out[j].Pos())
+	})
 	return out
 }
 
@@ -1169,7 +1175,9 @@ func runC08Bounds(c *Ctx) {
 		}
 		fs = append(fs, f)
 	}
-	sort.Slice(fs, func(i, j int) bool { return FuncName(fs[i]) < FuncName(fs[j]) || (FuncName(fs[i]) == FuncName(fs[j]) && fs[i].Pos() < fs[j].Pos()) })
+	sort.Slice(fs, func(i, j int) bool {
+		return FuncName(fs[i]) < FuncName(fs[j]) || (FuncName(fs[i]) == FuncName(fs[j]) && fs[i].Pos() < fs[j].Pos())
+	})
 	for _, f := range fs {
 		fn := FuncName(f)
 		k := 0
@@ -1613,7 +1621,7 @@ func runC05LexCfg(c *Ctx) {
 			case "Mode":
 				n++
 				k, ok := constInt(stripConv(st.Val))
-				const want = 1<<2 | 1<<3 | 1<<4  // ScanIdents=4, ScanInts=8, ScanFloats=16 (text/scanner: 1 << -Ident etc.)
+				const want = 1<<2 | 1<<3 | 1<<4 // ScanIdents=4, ScanInts=8, ScanFloats=16 (text/scanner: 1 << -Ident etc.)
 				_ = want
 				// text/scanner: ScanIdents = 1 << -Ident (Ident = -2) = 4; ScanInts = 1<<3 = 8; ScanFloats = 1<<4 = 16; ScanChars=32; ScanStrings=64; ScanRawStrings=128; ScanComments=256; SkipComments=512
 				c.Check(ok && k&(4|8|16) == (4|8|16) && k&(32|64|128|256|512) == 0, st.Pos(), fn, "Scanner.Mode", "ScanInts|ScanFloats|ScanIdents and nothing else that changes tokens", fmt.Sprintf("the scanner mode %d is not ScanInts|ScanFloats|ScanIdents (28) without char/string/comment scanning: numbers or keywords are tokenised differently", k))
@@ -1761,27 +1769,27 @@ func runC06Foreign(c *Ctx) {
 		}
 	})
 	for _, sf := range scan {
-	eachInstr(sf, func(in ssa.Instruction) {
-		bo, ok := in.(*ssa.BinOp)
-		if !ok || (bo.Op != token.EQL && bo.Op != token.NEQ) {
-			return
-		}
-		var s string
-		var other ssa.Value
-		if k, ok := constString(bo.X); ok {
-			s, other = k, bo.Y
-		} else if k, ok := constString(bo.Y); ok {
-			s, other = k, bo.X
-		} else {
-			return
-		}
-		// other is the key extracted from a map iteration
-		if ex, ok := other.(*ssa.Extract); ok && ex.Index == 1 {
-			if _, ok := ex.Tuple.(*ssa.Next); ok {
-				skipped[s] = true
+		eachInstr(sf, func(in ssa.Instruction) {
+			bo, ok := in.(*ssa.BinOp)
+			if !ok || (bo.Op != token.EQL && bo.Op != token.NEQ) {
+				return
 			}
-		}
-	})
+			var s string
+			var other ssa.Value
+			if k, ok := constString(bo.X); ok {
+				s, other = k, bo.Y
+			} else if k, ok := constString(bo.Y); ok {
+				s, other = k, bo.X
+			} else {
+				return
+			}
+			// other is the key extracted from a map iteration
+			if ex, ok := other.(*ssa.Extract); ok && ex.Index == 1 {
+				if _, ok := ex.Tuple.(*ssa.Next); ok {
+					skipped[s] = true
+				}
+			}
+		})
 	}
 	var ls, ss []string
 	for k := range looked {
@@ -2229,7 +2237,9 @@ func runC03XYOnly(c *Ctx) {
 			fs = append(fs, f)
 		}
 	}
-	sort.Slice(fs, func(i, j int) bool { return FuncName(fs[i]) < FuncName(fs[j]) || (FuncName(fs[i]) == FuncName(fs[j]) && fs[i].Pos() < fs[j].Pos()) })
+	sort.Slice(fs, func(i, j int) bool {
+		return FuncName(fs[i]) < FuncName(fs[j]) || (FuncName(fs[i]) == FuncName(fs[j]) && fs[i].Pos() < fs[j].Pos())
+	})
 	n := 0
 	isCoords := func(t types.Type) bool { return namedName(t) == "Coordinates" && pkgOfType(t) == "geom" }
 	for _, f := range fs {
@@ -3004,7 +3014,9 @@ func registerQuantRule(id string, props []string, doc string, floor int, pick fu
 				}
 			})
 		}
-		sort.Slice(fs, func(i, j int) bool { return FuncName(fs[i]) < FuncName(fs[j]) || (FuncName(fs[i]) == FuncName(fs[j]) && fs[i].Pos() < fs[j].Pos()) })
+		sort.Slice(fs, func(i, j int) bool {
+			return FuncName(fs[i]) < FuncName(fs[j]) || (FuncName(fs[i]) == FuncName(fs[j]) && fs[i].Pos() < fs[j].Pos())
+		})
 		for _, f := range fs {
 			n += checkQuantifierLoops(c, f, reviewed)
 		}
@@ -3982,123 +3994,134 @@ func runC07BBoxHeader(c *Ctx) {
 	}
 	problem, undec := "", ""
 	models := 0
-	bbox := []float64{3, 5, 14, 6, 44, 12, 136, 48}
-	scal := []float64{1, 2, 4, 8}
-	for mask := 0; mask < 8 && problem == "" && undec == ""; mask++ {
-		hasZ, hasM, hasBBox := mask&1 != 0, mask&2 != 0, mask&4 != 0
-		models++
-		m := &Model{Num: map[string]float64{}, Bool: map[string]bool{"$0.hasZ": hasZ, "$0.hasM": hasM, "$0.hasBBox": hasBBox}, Missing: map[string]bool{}}
-		it := &k4interp{p: c.P, m: m, mem: map[string]k4val{}, inline: func(g *ssa.Function) bool {
-			switch FuncName(g) {
-			case "geom.(*twkbParser).unscale", "geom.NewInterval":
-				return true
-			}
-			return false
-		}}
-		dims := 2
-		if hasZ {
-			dims++
-		}
-		if hasM {
-			dims++
-		}
-		it.mem["$0.bbox"] = k4val{kind: 8, s: "BB", ln: 2 * dims, cp: 2 * dims}
-		for i := 0; i < 2*dims; i++ {
-			it.mem[fmt.Sprintf("BB[%d]", i)] = k4val{kind: 2, f: bbox[i]}
-		}
-		for d := 0; d < 4; d++ {
-			m.Num[fmt.Sprintf("$0.scalings[%d]", d)] = scal[d]
-		}
-		var envArgs []float64
-		envCalls := 0
-		it.onOpaque = func(name string, args []k4val) {
-			if !strings.HasSuffix(name, "NewEnvelope") {
-				return
-			}
-			envCalls++
-			for _, a := range args {
-				if a.kind != 8 {
-					continue
+	type pset struct {
+		bbox, scal []float64
+		xy         []float64  // minX, minY, maxX, maxY
+		z, m3, m2  [2]float64 // Z range; M range with Z; M range without Z
+	}
+	psets := []pset{
+		{[]float64{3, 5, 14, 6, 44, 12, 136, 48}, []float64{1, 2, 4, 8}, []float64{3, 7, 8, 10}, [2]float64{11, 14}, [2]float64{17, 23}, [2]float64{11, 14}},
+		// decimal scalings: max must be unscale(min+delta) — the integer sum, divided once — not unscale(min)+unscale(delta), which is a different float (0.1+0.7 != 0.8)
+		{[]float64{1, 7, 1, 7, 1, 7, 1, 7}, []float64{10, 10, 10, 10}, []float64{0.1, 0.1, 0.8, 0.8}, [2]float64{0.1, 0.8}, [2]float64{0.1, 0.8}, [2]float64{0.1, 0.8}},
+	}
+	for _, ps := range psets {
+		bbox, scal := ps.bbox, ps.scal
+		for mask := 0; mask < 8 && problem == "" && undec == ""; mask++ {
+			hasZ, hasM, hasBBox := mask&1 != 0, mask&2 != 0, mask&4 != 0
+			models++
+			m := &Model{Num: map[string]float64{}, Bool: map[string]bool{"$0.hasZ": hasZ, "$0.hasM": hasM, "$0.hasBBox": hasBBox}, Missing: map[string]bool{}}
+			it := &k4interp{p: c.P, m: m, mem: map[string]k4val{}, inline: func(g *ssa.Function) bool {
+				switch FuncName(g) {
+				case "geom.(*twkbParser).unscale", "geom.NewInterval":
+					return true
 				}
-				for i := 0; i < a.ln; i++ {
-					for _, fld := range []string{"X", "Y"} {
-						v, e := it.lookup(fmt.Sprintf("%s[%d].%s", a.s, a.off+i, fld), f64T)
-						if e == nil && v.kind == 2 {
-							envArgs = append(envArgs, v.f)
+				return false
+			}}
+			dims := 2
+			if hasZ {
+				dims++
+			}
+			if hasM {
+				dims++
+			}
+			it.mem["$0.bbox"] = k4val{kind: 8, s: "BB", ln: 2 * dims, cp: 2 * dims}
+			for i := 0; i < 2*dims; i++ {
+				it.mem[fmt.Sprintf("BB[%d]", i)] = k4val{kind: 2, f: bbox[i]}
+			}
+			for d := 0; d < 4; d++ {
+				m.Num[fmt.Sprintf("$0.scalings[%d]", d)] = scal[d]
+			}
+			var envArgs []float64
+			envCalls := 0
+			it.onOpaque = func(name string, args []k4val) {
+				if !strings.HasSuffix(name, "NewEnvelope") {
+					return
+				}
+				envCalls++
+				for _, a := range args {
+					if a.kind != 8 {
+						continue
+					}
+					for i := 0; i < a.ln; i++ {
+						for _, fld := range []string{"X", "Y"} {
+							v, e := it.lookup(fmt.Sprintf("%s[%d].%s", a.s, a.off+i, fld), f64T)
+							if e == nil && v.kind == 2 {
+								envArgs = append(envArgs, v.f)
+							}
 						}
 					}
 				}
 			}
-		}
-		it.answer = func(key string, isBool bool) (k4val, bool) {
-			if isBool && strings.Contains(key, "parseHeaders(") {
-				return k4val{kind: 1, b: strings.Contains(key, "==nil")}, true
+			it.answer = func(key string, isBool bool) (k4val, bool) {
+				if isBool && strings.Contains(key, "parseHeaders(") {
+					return k4val{kind: 1, b: strings.Contains(key, "==nil")}, true
+				}
+				return k4val{}, false
 			}
-			return k4val{}, false
-		}
-		res, err := it.call(f, []k4val{{kind: 3, s: "$0"}}, nil)
-		if err != nil || len(res) != 2 || res[0].kind != 3 {
-			undec = fmt.Sprintf("%v %v %s", err, res, trunc(missingList(m)))
-			break
-		}
-		cfg := fmt.Sprintf("hasZ=%v hasM=%v hasBBox=%v", hasZ, hasM, hasBBox)
-		if res[1].String() != "nil" {
-			problem = cfg + ": returns an error although the headers parsed"
-			break
-		}
-		r := res[0].s
-		rng := func(name string) (lo, hi float64, ne bool, ok bool) {
-			if r == "zero" {
-				return 0, 0, false, true
+			res, err := it.call(f, []k4val{{kind: 3, s: "$0"}}, nil)
+			if err != nil || len(res) != 2 || res[0].kind != 3 {
+				undec = fmt.Sprintf("%v %v %s", err, res, trunc(missingList(m)))
+				break
 			}
-			a, e1 := it.lookup(r+"."+name+".min", f64T)
-			b, e2 := it.lookup(r+"."+name+".max", f64T)
-			n, e3 := it.lookup(r+"."+name+".nonEmpty", boolT)
-			if e3 != nil {
-				return 0, 0, false, false
+			cfg := fmt.Sprintf("hasZ=%v hasM=%v hasBBox=%v", hasZ, hasM, hasBBox)
+			if res[1].String() != "nil" {
+				problem = cfg + ": returns an error although the headers parsed"
+				break
 			}
-			if !n.b {
-				return 0, 0, false, true
+			r := res[0].s
+			rng := func(name string) (lo, hi float64, ne bool, ok bool) {
+				if r == "zero" {
+					return 0, 0, false, true
+				}
+				a, e1 := it.lookup(r+"."+name+".min", f64T)
+				b, e2 := it.lookup(r+"."+name+".max", f64T)
+				n, e3 := it.lookup(r+"."+name+".nonEmpty", boolT)
+				if e3 != nil {
+					return 0, 0, false, false
+				}
+				if !n.b {
+					return 0, 0, false, true
+				}
+				return a.f, b.f, true, e1 == nil && e2 == nil
 			}
-			return a.f, b.f, true, e1 == nil && e2 == nil
-		}
-		if !hasBBox {
-			if envCalls != 0 {
-				problem = cfg + ": an envelope is built although the header has no bounding box"
+			if !hasBBox {
+				if envCalls != 0 {
+					problem = cfg + ": an envelope is built although the header has no bounding box"
+				}
+				continue
 			}
-			continue
-		}
-		// X/Y
-		want := []float64{3, 7, 8, 10} // (minX, minY), (maxX, maxY)
-		if envCalls != 1 || len(envArgs) != 4 {
-			undec = fmt.Sprintf("%s: the XY envelope is not built by one NewEnvelope call over two points (%d calls, %v)", cfg, envCalls, envArgs)
-			break
-		}
-		// order of the two points is irrelevant to NewEnvelope
-		okXY := (envArgs[0] == want[0] && envArgs[1] == want[1] && envArgs[2] == want[2] && envArgs[3] == want[3]) ||
-			(envArgs[2] == want[0] && envArgs[3] == want[1] && envArgs[0] == want[2] && envArgs[1] == want[3])
-		if !okXY {
-			problem = fmt.Sprintf("%s: XY envelope built from %v, expected corners (3 7) and (8 10) (= min and min+delta of dimensions 0 and 1, each divided by its own scaling)", cfg, envArgs)
-			break
-		}
-		zlo, zhi, zne, ok1 := rng("ZRange")
-		mlo, mhi, mne, ok2 := rng("MRange")
-		if !ok1 || !ok2 {
-			undec = cfg + ": cannot read the Z/M ranges of the result: " + trunc(missingList(m))
-			break
-		}
-		wz := [2]float64{11, 14}
-		wm := [2]float64{17, 23}
-		if !hasZ {
-			wm = [2]float64{11, 14}
-		}
-		if zne != hasZ || (hasZ && (zlo != wz[0] || zhi != wz[1])) {
-			problem = fmt.Sprintf("%s: Z range is (%v %v present=%v), expected (%v %v present=%v)", cfg, zlo, zhi, zne, wz[0], wz[1], hasZ)
-			break
-		}
-		if mne != hasM || (hasM && (mlo != wm[0] || mhi != wm[1])) {
-			problem = fmt.Sprintf("%s: M range is (%v %v present=%v), expected (%v %v present=%v)", cfg, mlo, mhi, mne, wm[0], wm[1], hasM)
-			break
+			// X/Y
+			want := ps.xy // (minX, minY), (maxX, maxY)
+			if envCalls != 1 || len(envArgs) != 4 {
+				undec = fmt.Sprintf("%s: the XY envelope is not built by one NewEnvelope call over two points (%d calls, %v)", cfg, envCalls, envArgs)
+				break
+			}
+			// order of the two points is irrelevant to NewEnvelope
+			okXY := (envArgs[0] == want[0] && envArgs[1] == want[1] && envArgs[2] == want[2] && envArgs[3] == want[3]) ||
+				(envArgs[2] == want[0] && envArgs[3] == want[1] && envArgs[0] == want[2] && envArgs[1] == want[3])
+			if !okXY {
+				problem = fmt.Sprintf("%s: XY envelope built from %v, expected corners (%v %v) and (%v %v) (= unscale(min) and unscale(min+delta) of dimensions 0 and 1, each with its own scaling, the sum taken on the integers)", cfg, envArgs, want[0], want[1], want[2], want[3])
+				break
+			}
+			zlo, zhi, zne, ok1 := rng("ZRange")
+			mlo, mhi, mne, ok2 := rng("MRange")
+			if !ok1 || !ok2 {
+				undec = cfg + ": cannot read the Z/M ranges of the result: " + trunc(missingList(m))
+				break
+			}
+			wz := ps.z
+			wm := ps.m3
+			if !hasZ {
+				wm = ps.m2
+			}
+			if zne != hasZ || (hasZ && (zlo != wz[0] || zhi != wz[1])) {
+				problem = fmt.Sprintf("%s: Z range is (%v %v present=%v), expected (%v %v present=%v)", cfg, zlo, zhi, zne, wz[0], wz[1], hasZ)
+				break
+			}
+			if mne != hasM || (hasM && (mlo != wm[0] || mhi != wm[1])) {
+				problem = fmt.Sprintf("%s: M range is (%v %v present=%v), expected (%v %v present=%v)", cfg, mlo, mhi, mne, wm[0], wm[1], hasM)
+				break
+			}
 		}
 	}
 	reportK4(c, f, "ranges from (min, delta) pairs", undec, problem, fmt.Sprintf("every range is (min, min+delta) of its own dimension, unscaled by that dimension's scaling (%d models)", models))
